@@ -877,17 +877,6 @@ bool c_load_case(const Case& c, NifFile& nif, std::string& err, int& rc) {
 	}
 	std::istringstream is(bytes);
 	rc = nif.Load(is);
-	if (rc == 0 && c.get("fixbool") == "1") {
-		// a bool member read from a byte other than 0/1 (known finding C15-ub-invalid-bool-copy):
-		// rewrite it without reading it as a bool so that the rest of the battery can run
-		for (auto& blk : nif.blocks)
-			if (auto bi = dynamic_cast<NiBlendBoolInterpolator*>(blk.get())) {
-				unsigned char raw = 0;
-				std::memcpy(&raw, &bi->value, 1);
-				raw = raw ? 1 : 0;
-				std::memcpy(&bi->value, &raw, 1);
-			}
-	}
 	return true;
 }
 
